@@ -219,3 +219,30 @@ pub(crate) fn check(
         std::process::exit(1);
     }
 }
+
+/// Verification hook: the fixes that `check --fix` would collect for
+/// `src` (in the order `check` collects them, grouped by diagnostic),
+/// each group with the message of the diagnostic that offered it.
+/// `None` when `src` has parse errors (then `check` offers no fixes).
+#[cfg(wilfred_garden_verif)]
+pub(crate) fn verif_collect_fixes(path: &Path, src: &str) -> Option<Vec<(String, Vec<Autofix>)>> {
+    let mut id_gen = IdGenerator::default();
+    let (vfs, vfs_path) = Vfs::singleton(path.to_owned(), src.to_owned());
+    let (items, errors) = parse_toplevel_items(&vfs_path, src, &mut id_gen);
+    if !errors.is_empty() {
+        return None;
+    }
+
+    let mut env = Env::new(id_gen, vfs);
+    let ns = env.get_or_create_namespace(path);
+    let (mut raw_diagnostics, _) = load_toplevel_items(&items, &mut env, Rc::clone(&ns));
+    raw_diagnostics.extend(check_toplevel_items_in_env(&vfs_path, &items, &env, ns));
+
+    let mut all_fixes = vec![];
+    for Diagnostic { message, fixes, .. } in raw_diagnostics {
+        if !fixes.is_empty() {
+            all_fixes.push((message.as_string(), fixes));
+        }
+    }
+    Some(all_fixes)
+}
